@@ -236,7 +236,7 @@ def build_harness(cfg):
 
 # ================================================================================================ projections
 def proj_returns(t):
-    return [x for x in t if x[0] in "BKN" or x.startswith("E:") or x in ("T", "F", "d", "o")]
+    return [x for x in t if x[0] in "BKN" or x.startswith("E:") or x in ("T", "F", "d", "o", "k")]
 
 
 def proj_polls(t):
@@ -258,7 +258,7 @@ def proj_own(t):
             if seg:
                 out.append("{" + ",".join(sorted(seg)) + "}")
                 seg = []
-            if x[0] in "BKN=" or x.startswith("E:") or x in ("T", "F", "d", "o") or (x[0] == "c" and ":" in x):
+            if x[0] in "BKN=" or x.startswith("E:") or x in ("T", "F", "d", "o", "k") or (x[0] == "c" and ":" in x):
                 out.append(x)
     if seg:
         out.append("{" + ",".join(sorted(seg)) + "}")
@@ -637,8 +637,10 @@ def decide(pid, tier, seed):
               assumptions=["the model predicts the implementation on the cases that were not run",
                            "std::sync::Mutex / Arc / Waker behave as specified; wakes from other threads land in the windows where the readiness lock is free",
                            "no usize overflow"])
-    os.makedirs(os.path.join(ROOT, "evidence"), exist_ok=True)
-    json.dump(ev, open(os.path.join(ROOT, "evidence", pid + ".json"), "w"), indent=1)
+    # evidence belongs to /repo itself; a run against another tree (VERIF_REPO) writes under .cache/ instead
+    evdir = os.path.join(ROOT, "evidence") if REPO == "/repo" else os.path.join(CACHE, "evidence-" + REPO_TAG)
+    os.makedirs(evdir, exist_ok=True)
+    json.dump(ev, open(os.path.join(evdir, pid + ".json"), "w"), indent=1)
     print(f"{pid} tier={tier} seed={seed} proofs={'ok' if pr['ok'] else 'BROKEN'} ({pr['discharged']}/{pr['obligations']}) cases={stats['evaluations']} "
           f"nontrivial={len(stats['nontrivial'])} diffs={len(diffs)} monitor_failures={len(monfails)} batch_failures={len(batch_fail)} wall={time.time()-t0:.1f}s")
     return 1 if violation else 0
